@@ -175,7 +175,7 @@ def harnesses(tier):
         if op == "merge_mc2":
             for tr in itertools.product([("C",), ("N", "C")], repeat=3):
                 hs.append(H(op, tr))
-    for op, seqs in DEEP:
+    for op, seqs in DEEP[:4]:
         hs.append(H(op, seqs, lines=False))
     return hs
 
@@ -193,7 +193,7 @@ def shard(part, shard_i, nshards, tier, seed, deadline):
     ilv.install()
     for i, h in enumerate(harnesses(tier)):
         if (i + seed) % nshards == shard_i:
-            ilvrun.explore_all(part, [h], 0, 1, PB_of(tier, h), 0, deadline, horizon=WAIT + 3.0, coarse_pb=2 if (tier != "quick" and h.lines and (h.op, h.seqs) in DEEP) else None)
+            ilvrun.explore_all(part, [h], 0, 1, PB_of(tier, h), 0, deadline, horizon=WAIT + 3.0, coarse_pb=2 if (tier != "quick" and h.lines and (h.op, h.seqs) in DEEP[:2]) else None)
 
 
 def run_part(ctx):
